@@ -294,3 +294,23 @@ func padCopyWrongOffset(src []byte) []byte {
 	copy(buf[len(buf)+len(src):], src)
 	return buf
 }
+
+// LINT-TAUTLEN
+func lengthNeverNegative(s string) int {
+	if len(s) >= 0 {
+		return 1
+	}
+	return 0
+}
+
+// LINT-ARRFILL
+func arrayFilledFromWrongCount(parts []string) ([4]byte, bool) {
+	var out [4]byte
+	if len(parts) != 5 {
+		return out, false
+	}
+	for i, p := range parts {
+		out[i] = p[0]
+	}
+	return out, true
+}
